@@ -131,7 +131,7 @@ func templateRoots(c *Ctx, gen *packages.Package) []TemplateRoot {
 // sprigFuncNames reads the function names registered by sprig's generic function map from the
 // type-checked dependency (keys of the genericMap literal).
 func sprigFuncNames(c *Ctx) map[string]bool {
-	prog := c.ProgDeps("./generator")
+	prog := c.ProgDeps("./generator", "github.com/go-openapi/runtime/yamlpc")
 	out := map[string]bool{}
 	for path, pk := range prog.ByPath {
 		if !strings.HasPrefix(path, "github.com/Masterminds/sprig") {
@@ -170,7 +170,7 @@ func (c *Ctx) evalTemplates(contrib string) (*tmpl.Evaluator, []TemplateRoot, *p
 	if ev, ok := c.evals[contrib]; ok {
 		return ev.ev, ev.roots, ev.gen
 	}
-	prog := c.ProgDeps("./generator")
+	prog := c.ProgDeps("./generator", "github.com/go-openapi/runtime/yamlpc")
 	gen := prog.Pkg(load.PkgGenerator)
 	forest := c.Forest(gen, contrib)
 	ev := tmpl.NewEvaluator(forest, gen, sprigFuncNames(c))
@@ -212,6 +212,9 @@ func DumpTemplates(c *Ctx, what string) {
 	fmt.Println("undefined templates:", ev.Undefined)
 	fmt.Println("unknown funcs:", ev.UnknownFuncs)
 	fmt.Println("unlisted files:", ev.F.Unlisted, "missing:", ev.F.Missing, "parse errors:", ev.F.ParseErrs, "dups:", ev.F.Duplicates)
+	for _, cc := range ev.CommentedCode {
+		fmt.Printf("COMMENTED-CODE %s [%s] marker %q entered in %s\n", cc.Tree.PosStr(cc.Pos), cc.Inst, cc.Marker, cc.Entry)
+	}
 	for _, f := range ev.Findings {
 		fmt.Printf("TYPE %v %s [%s] %s: no field/method %q on %s\n", f.Definite, f.Tree.PosStr(f.Pos), f.Inst, f.Chain, f.Field, f.OnType)
 	}
